@@ -78,6 +78,7 @@ var c08DefectCatalogue = []Defect{
 	{Name: "noa-past", Param: "10"}, {Name: "noa-past", Param: "3600"}, {Name: "noa-past", Param: "315360000"},
 	{Name: "nb-abs", Param: "9999-12-31T23:59:59Z"}, {Name: "nb-abs", Param: "2400-01-01T00:00:00Z"}, {Name: "nb-abs", Param: "2262-04-12T00:00:00.5Z"}, {Name: "nb-abs", Param: "2038-01-19T03:14:08Z"},
 	{Name: "noa-abs", Param: "1601-01-01T00:00:00Z"}, {Name: "noa-abs", Param: "1500-06-15T12:00:00Z"}, {Name: "noa-abs", Param: "0001-01-01T00:00:00Z"}, {Name: "noa-abs", Param: "1677-09-21T00:12:43Z"}, {Name: "noa-abs", Param: "1970-01-01T00:00:00Z"},
+	{Name: "nb-future-form", Param: "1800/0/offsetneg"}, {Name: "noa-past-form", Param: "1800/0/offset2"},
 	{Name: "nb-garbage", Param: "now"}, {Name: "nb-garbage", Param: "dateonly"}, {Name: "nb-garbage", Param: "month13"}, {Name: "noa-garbage", Param: "now"}, {Name: "noa-garbage", Param: "space"},
 	{Name: "unknown-encoding", Param: "urn:example:encoding"}, {Name: "unknown-encoding", Param: "urn:oasis:names:tc:SAML:2.0:bindings:URL-Encoding:deflate"}, {Name: "unknown-encoding", Param: spsim.EncodingDeflate + " "},
 	{Name: "sigalg-without-signature"}, {Name: "empty-samlrequest"}, {Name: "missing-samlrequest"},
@@ -158,6 +159,10 @@ func applyModelDefect(c *SSOCase, d Defect, host string) {
 	case "nb-future":
 		conds().NotBefore = "@now+" + d.Param
 	case "noa-past":
+		conds().NotOnOrAfter = "@now-" + d.Param
+	case "nb-future-form":
+		conds().NotBefore = "@now+" + d.Param
+	case "noa-past-form":
 		conds().NotOnOrAfter = "@now-" + d.Param
 	case "nb-abs":
 		conds().NotBefore = d.Param
